@@ -37,9 +37,14 @@ class Models:
 
     def key_candidates(self, cal, self_ty):
         ks = []
+        st = self_ty
+        if st is not None and cal.trait in ("From", "TryFrom", "Index", "IndexMut", "FromIterator", "Default", "Deref", "IntoIterator"):
+            # conversions and indexing are dispatched on the implementing type first
+            b = deref_ty(st)
+            if b.k in ("adt", "prim"):
+                ks.append(f"{b.name}::{cal.method}")
         if cal.trait:
             ks.append(f"{cal.trait}::{cal.method}")
-        st = self_ty
         if st is not None:
             b = deref_ty(st)
             if b.k in ("adt", "prim"):
